@@ -8,6 +8,7 @@ package agreement
 //
 //	VERIF_ND_SCENARIO=doublecommit   crash-restart-crash of one honest node + one Byzantine of four  → two commits? (C01/C02 finding)
 //	VERIF_ND_SCENARIO=fastvote       fast-recovery timeout handled while Step ≤ cert, then a soft threshold → cert vote after `down ⊥`
+//	VERIF_ND_SCENARIO=latepayload    a next-quorum of nodes sees the soft threshold but gets the payload only after its deadline (step next)
 //	VERIF_ND_SCENARIO=fastcommit     … extended to a ⊥ next-quorum and a cert quorum sharing honest nodes → two commits?
 
 import (
@@ -244,6 +245,9 @@ func TestVerifNetDriveScenario(t *testing.T) {
 	if name == "fastcommit0" {
 		cfg.honest = []bool{true, true, true, true}
 	}
+	if name == "latepayload" {
+		cfg.honest = []bool{true, true, true, true}
+	}
 	if name == "stalecert" {
 		cfg.honest = []bool{false, true, false, false} // nodes 0, 2, 3 are played by the harness with their real keys
 	}
@@ -269,6 +273,8 @@ func TestVerifNetDriveScenario(t *testing.T) {
 			scenFastVote(s, true)
 		case "stalecert":
 			scenStaleCert(s)
+		case "latepayload":
+			scenLatePayload(s)
 		default:
 			t.Fatalf("unknown scenario %s", name)
 		}
@@ -392,5 +398,45 @@ func scenStaleCert(s *ndScen) {
 	s.r.note("SCENARIO stalecert: delivering a valid cert bundle of period 2 to node %d in period %d", X, s.r.nodes[X].period)
 	s.out.flush()
 	s.deliver(func(m *ndMsg, in ndInfo) bool { return in.kind == 'B' && m.dst == X })
+	s.finish()
+}
+
+// scenLatePayload: all four nodes honest, nothing lost, only delay.  L proposes the leading block v; s0, s1, s2 get L's
+// stand-alone proposal-vote and all soft votes (so they see the soft threshold for v) but not the payload; their deadline
+// expires, they next-vote ⊥; then the payload arrives while they are in step next.  The cert vote is allowed only while
+// Step ≤ cert: on the real code they stay silent, the ⊥ next-quorum moves everybody to period 1 and one block is
+// committed.  If a node cert-votes v here (seeded change C01-1: `p.Step <= next`), s0 collects {L, s1, s2, s0} and commits v
+// while the others commit the period-1 block.
+func scenLatePayload(s *ndScen) {
+	s.start()
+	rnd := s.r.start
+	ord := s.credOrder(rnd)
+	L, S := ord[0], ord[1:]
+	inS := func(id int) bool { return id == S[0] || id == S[1] || id == S[2] }
+	s.r.note("SCENARIO latepayload L=%d S=%v", L, S)
+	s.deliver(func(m *ndMsg, in ndInfo) bool { return in.kind == 'V' && in.step == propose && in.period == 0 })
+	for _, x := range ord {
+		s.do("t %d", x) // filter timeout: everybody soft-votes v
+	}
+	s.deliver(func(m *ndMsg, in ndInfo) bool { return in.kind == 'V' && in.step == soft && in.period == 0 }) // L cert-votes v
+	for _, x := range S {
+		s.do("t %d", x) // deadline: staged but no payload → next-vote ⊥, Step = next
+	}
+	s.deliver(func(m *ndMsg, in ndInfo) bool { return in.kind == 'P' && in.sender == L && m.src == L && inS(m.dst) && in.period == 0 })
+	s.deliver(func(m *ndMsg, in ndInfo) bool { return in.kind == 'V' && in.step == cert && in.period == 0 && m.dst == S[0] })
+	s.deliver(func(m *ndMsg, in ndInfo) bool { return in.kind == 'V' && in.step == next && in.period == 0 && in.val == "bot" })
+	for i := 0; i < 2; i++ { // period 1: proposals (votes and payloads), to everybody
+		s.deliver(func(m *ndMsg, in ndInfo) bool { return (in.kind == 'P' || (in.kind == 'V' && in.step == propose)) && in.period == 1 })
+	}
+	for _, x := range ord {
+		s.r.mu.Lock()
+		here := s.r.nodes[x].round == rnd && s.r.nodes[x].period == 1
+		s.r.mu.Unlock()
+		if here {
+			s.do("t %d", x)
+		}
+	}
+	s.deliver(func(m *ndMsg, in ndInfo) bool { return in.kind == 'V' && in.step == soft && in.period == 1 })
+	s.deliver(func(m *ndMsg, in ndInfo) bool { return in.kind == 'V' && in.step == cert && in.period == 1 })
 	s.finish()
 }
